@@ -380,6 +380,93 @@ static void greedy_case(uint64_t N, int native, unsigned rep) {
   case_end(1);
 }
 
+// limb strides of 4 GiB and more (every stride >= N is legal): the rows live in a sparse mapping that only reserves
+// address space; the product through svp_apply_dft + idft and vec_znx_dft must not care
+#include <sys/mman.h>
+static void huge_stride_case(uint64_t N, int native, unsigned rep) {
+  if (!case_begin(native ? "svp_apply_dft+vec_znx_dft|limb stride >= 2^29 words" : "svp_apply_dft+vec_znx_dft|limb stride >= 2^29 words,generic", "N=%" PRIu64 " rep=%u", N, rep)) return;
+  rng_t* r = crng();
+  const MODULE* mod = get_module(N, FFT64, native);
+  static const uint64_t SL[] = {(1ull << 29), (1ull << 29) + 1, (1ull << 29) - 1 + 8, (1ull << 30) + 24, 3ull << 28};
+  const uint64_t sl = SL[rep % ARRAY_LEN(SL)], rows = 3;
+  const size_t len = ((rows - 1) * sl + N) * 8 + 8192;
+  uint8_t* map = mmap(0, len, PROT_READ | PROT_WRITE, MAP_PRIVATE | MAP_ANONYMOUS | MAP_NORESERVE, -1, 0);
+  if (map == MAP_FAILED) { cnt("huge_stride_mapping_refused", 1); case_end(0); return; }
+  int64_t* a = (int64_t*)(map + 4096);
+  int64_t* b = malloc(N * 8);
+  for (uint64_t i = 0; i < N; i++) b[i] = rng_range(r, -3, 3);
+  for (uint64_t l = 0; l < rows; l++)
+    for (uint64_t i = 0; i < N; i++) a[l * sl + i] = rng_range(r, -100000, 100000) + (int64_t)l;
+  SVP_PPOL* pp = malloc(bytes_of_svp_ppol(mod) + 64);
+  VEC_ZNX_DFT* d = malloc(bytes_of_vec_znx_dft(mod, rows) + 64);
+  VEC_ZNX_DFT* d2 = malloc(bytes_of_vec_znx_dft(mod, rows) + 64);
+  svp_prepare(mod, pp, b);
+  svp_apply_dft(mod, d, rows, pp, a, rows, sl);
+  vec_znx_idft_tmp_a(mod, (VEC_ZNX_BIG*)d, rows, d, rows);
+  i128* exact = malloc(N * 16);
+  for (uint64_t l = 0; l < rows; l++) {
+    negacyclic_exact(N, a + l * sl, b, exact);
+    for (uint64_t i = 0; i < N; i++)
+      if ((i128)((int64_t*)d)[l * N + i] != exact[i]) {
+        viol("oracle", "svp_apply_dft with a limb stride of %" PRIu64 " words: row %" PRIu64 " coeff %" PRIu64 " got %" PRId64 " exact %" PRId64 " (N=%" PRIu64 ")", sl, l, i, ((int64_t*)d)[l * N + i], (int64_t)exact[i], N);
+        l = rows;
+        break;
+      }
+  }
+  // vec_znx_dft + idft round trip from the same strided rows
+  vec_znx_dft(mod, d2, rows, a, rows, sl);
+  vec_znx_idft_tmp_a(mod, (VEC_ZNX_BIG*)d2, rows, d2, rows);
+  for (uint64_t l = 0; l < rows; l++)
+    if (memcmp((int64_t*)d2 + l * N, a + l * sl, N * 8)) { viol("oracle", "vec_znx_dft with a limb stride of %" PRIu64 " words: row %" PRIu64 " does not survive dft + idft (N=%" PRIu64 ")", sl, l, N); break; }
+  cnt("huge_stride_products", rows);
+  sample("3 rows %" PRIu64 " words apart: exact products and round trips", sl);
+  free(exact); free(b); free(pp); free(d); free(d2);
+  munmap(map, len);
+  case_end(1);
+}
+
+// hundreds of FFT64 modules of one dimension alive together, some deleted, the survivors still multiply exactly
+static void many_live_case(uint64_t N, unsigned count, int native, unsigned rep) {
+  if (!case_begin(native ? "fft64 modules|hundreds alive at once, some deleted" : "fft64 modules|hundreds alive at once, some deleted,generic", "N=%" PRIu64 " count=%u rep=%u", N, count, rep)) return;
+  rng_t* r = crng();
+  int saved = g_dispatch_native;
+  set_dispatch(native);
+  MODULE** mods = calloc(count, sizeof *mods);
+  for (unsigned i = 0; i < count; i++) mods[i] = new_module_info((i % 7 == 3) ? 2 * N : N, FFT64);
+  const unsigned ndel = count % 256 + 1 + (unsigned)(rng_u64(r) % 3);
+  for (unsigned k = 0; k < ndel; k++) {
+    const unsigned i = (unsigned)(rng_u64(r) % count);
+    if (mods[i]) { delete_module_info(mods[i]); mods[i] = 0; }
+  }
+  void* junk[32];
+  for (int j = 0; j < 32; j++) junk[j] = calloc(1, 64 + (size_t)(rng_u64(r) % (N * 24 + 64)));
+  uint64_t checked = 0, nbad = 0;
+  for (unsigned i = 0; i < count; i++) {
+    if (!mods[i]) continue;
+    const uint64_t n = (i % 7 == 3) ? 2 * N : N;
+    int64_t* a = malloc(n * 8);
+    int64_t* b = malloc(n * 8);
+    int64_t* res = malloc(n * 8);
+    i128* exact = malloc(n * 16);
+    uint8_t* tmp = malloc(znx_small_single_product_tmp_bytes(mods[i]) + 64);
+    for (uint64_t c = 0; c < n; c++) { a[c] = rng_range(r, -100000, 100000); b[c] = rng_range(r, -3, 3); }
+    znx_small_single_product(mods[i], res, a, b, tmp);
+    negacyclic_exact(n, a, b, exact);
+    for (uint64_t c = 0; c < n; c++)
+      if ((i128)res[c] != exact[c]) { nbad++; break; }
+    checked++;
+    free(a); free(b); free(res); free(exact); free(tmp);
+  }
+  if (nbad) viol("oracle", "%" PRIu64 " of %" PRIu64 " FFT64 modules that were alive together with %u others no longer multiply exactly after %u of them were deleted (N=%" PRIu64 ")", nbad, checked, count, ndel, N);
+  for (unsigned i = 0; i < count; i++) if (mods[i]) delete_module_info(mods[i]);
+  for (int j = 0; j < 32; j++) free(junk[j]);
+  free(mods);
+  set_dispatch(saved);
+  cnt("modules_alive_together", count);
+  sample("%u modules alive at once, %u deleted, %" PRIu64 " survivors multiply exactly", count, ndel, checked);
+  case_end(checked > 0);
+}
+
 // module lifecycles: several modules of equal and different dimensions are created and deleted in a random order
 // (not stack-like); every product through a module that is still alive must stay correct whatever happened to the others
 static void lifecycle_case(int native, unsigned rep) {
@@ -480,6 +567,17 @@ void run_C01(void) {
   }
   for (int native = 1; native >= 0; native--)
     for (unsigned rep = 0; rep < (th ? 400u : 24u); rep++) lifecycle_case(native, rep);
+  for (int native = 1; native >= 0; native--) {
+    many_live_case(16, 257, native, 0);
+    many_live_case(8, 520, native, 1);
+    if (th) many_live_case(4, 66000, native, 2);
+  }
+  for (int native = 1; native >= 0; native--)
+    for (unsigned rep = 0; rep < 5; rep++) {
+      huge_stride_case(8, native, rep);
+      huge_stride_case(64, native, rep);
+      if (th) huge_stride_case(4096, native, rep);
+    }
   // full (res, a) box on small N for the svp path, both idft variants and both dispatches
   static const uint64_t bN[] = {2, 4, 8, 16, 64};
   for (size_t ni = 0; ni < ARRAY_LEN(bN); ni++)
